@@ -1,6 +1,6 @@
 (** Correspondence check for C16.  Depends on the model only (no proofs). *)
 From Coq Require Import String List NArith Bool.
-From Fabio Require Import Lib.Outcome Lib.Bytes Lib.Verdict Model.GrpcPool.
+From Fabio Require Import Lib.Outcome Lib.Bytes Lib.Verdict Model.GrpcPool Model.GrpcTransport.
 From Fabio Require Model.Glob Model.Lookup.
 Import ListNotations.
 Local Open Scope N_scope.
@@ -57,6 +57,10 @@ Inductive sstep := SCall (u : option url) | SSetTable (urls : list url) | STick.
    target cannot be reached: which one it was is decided by the model, at most one per route) *)
 Inductive hchosen := HBackend (u : url) | HNobody | HUnreachable.
 Inductive hstep := HCall (m : md) (upath : option str) (c : hchosen) | HSetTable (t : table) | HTick.
+(* a history in which backends also lose the connections they have (restart on the same address,
+   reset of the accepted connections) while they stay in the table *)
+Inductive xhstep := XH (st : hstep) | XHLose (u : url).
+Inductive xsstep := XS (s : sstep) | XSLose (u : url).
 
 Inductive case :=
 (* GrpcProxyInterceptor.lookup on the live table [t] *)
@@ -76,7 +80,11 @@ Inductive case :=
 (* one unary call through a server built by the real newGrpcProxy with limits [rx]/[tx]:
    request of [req] bytes, scripted response of [resp] bytes; did the backend receive the
    request byte for byte, did the caller receive the response byte for byte, status code *)
-| CLimit (rx tx req resp : N) (backend_got caller_got : bool) (code : N).
+| CLimit (rx tx req resp : N) (backend_got caller_got : bool) (code : N)
+(* a history of calls, table changes and real cleanup ticks in which backends lose their
+   connections in between, evaluated through the machine with transports
+   (Model/GrpcTransport.v [xrun]): connections begun / ended at each backend after every step *)
+| CHistoryX (noglob tls_listener : bool) (down : list url) (steps : list xhstep) (obs : list (list cnt)).
 
 (* ---- CPool ---- *)
 Fixpoint pool_same (st : list url * pstate) (ops : list pop2) (obs : list pobs) : bool :=
@@ -219,6 +227,78 @@ Fixpoint sess_spec (urls : list url) (prev : list cnt) (steps : list sstep) (obs
   | _, _ => false
   end.
 
+(* ---- CHistoryX: through [xrun] ---- *)
+Fixpoint xhist_same (ng tl : bool) (down : list url) (xs : xstate) (steps : list xhstep) (obs : list (list cnt)) : bool :=
+  match steps, obs with
+  | [], [] => true
+  | st :: rs, b :: rb =>
+      match (match st with
+             | XHLose u => Some [XLose u]
+             | XH h => option_map (map XOp) (hist_ops ng tl down (x_st xs) h)
+             end) with
+      | None => false
+      | Some ops =>
+          let xs' := xrun ng (unreachable tl down) xs ops in
+          forallb (fun c => (cn_begun c =? x_begun_at xs' (cn_url c))
+                            && (cn_ended c =? x_ended_at xs' (cn_url c))) b
+          && xhist_same ng tl down xs' rs rb
+      end
+  | _, _ => false
+  end.
+Definition xhstep_xsstep (st : xhstep) : xsstep :=
+  match st with XH h => XS (hstep_sstep h) | XHLose u => XSLose u end.
+(* on the observations alone: [sess_spec], and a backend that loses its connections has seen
+   every connection it had end, and opens none by itself; the next call that reaches it opens
+   exactly one (the clause of [sess_spec] for calls) *)
+Fixpoint xsess_spec (urls : list url) (prev : list cnt) (steps : list xsstep) (obs : list (list cnt)) : bool :=
+  match steps, obs with
+  | [], [] => true
+  | s :: rs, b :: rb =>
+      forallb (fun c =>
+        let '(pb, pe) := cnt_of prev (cn_url c) in
+        match s with
+        | XS (SCall (Some u)) =>
+            if beq u (cn_url c)
+            then (cn_begun c =? (if pe <? pb then pb else pb + 1)) && (cn_ended c =? pe)
+            else (cn_begun c =? pb) && (cn_ended c =? pe)
+        | XS STick =>
+            (cn_begun c =? pb) && (cn_ended c =? (if mem (cn_url c) urls then pe else pb))
+        | XSLose u =>
+            (cn_begun c =? pb) && (cn_ended c =? (if beq u (cn_url c) then pb else pe))
+        | _ => (cn_begun c =? pb) && (cn_ended c =? pe)
+        end) b
+      && Nat.eqb (List.length b) (List.length prev)
+      && xsess_spec (match s with XS (SSetTable t) => t | _ => urls end) b rs rb
+  | _, _ => false
+  end.
+(* ... and, whatever was lost before, a call is served by a backend of a route that matches, or
+   by nobody when no route matches (the clause CCall checks call by call) *)
+Fixpoint xroute_spec (ng : bool) (down : list url) (t : table) (steps : list xhstep) : bool :=
+  match steps with
+  | [] => true
+  | st :: r =>
+      (match st with
+       | XH (HCall m (Some p) ch) =>
+           let host := dsthost m in
+           host_domain host &&
+           match ch with
+           | HBackend u => routed_ok t ng host p u
+           | HNobody => unrouted_ok t ng host p
+           | HUnreachable => existsb (fun u => mem u down && routed_ok t ng host p u) (table_urls t)
+           end
+       | _ => true
+       end)
+      && xroute_spec ng down (match st with XH (HSetTable t') => t' | _ => t end) r
+  end.
+(* a backend lost its connections and was reached by a call later on *)
+Fixpoint reached_after_loss (lost : list url) (steps : list xhstep) : bool :=
+  match steps with
+  | [] => false
+  | XHLose u :: r => reached_after_loss (u :: lost) r
+  | XH (HCall _ _ (HBackend u)) :: r => mem u lost || reached_after_loss lost r
+  | _ :: r => reached_after_loss lost r
+  end.
+
 (* ---- CCall ---- *)
 (* the property's clause on the two views: everything the backend scripted arrives; its
    headers are owed only when it sends at least one message *)
@@ -312,4 +392,13 @@ Definition check_case (c : case) : N :=
                   | b0 :: _ => sess_spec [] (map (fun c => mkcnt (cn_url c) 0 0) b0) ss obs
                   end in
       verdict same spec None true
+  | CHistoryX ng tl down steps obs =>
+      if negb (forallb (fun st => match st with XH (HSetTable t) => table_domain t | _ => true end) steps) then v_disagree else
+      let same := xhist_same ng tl down (x_init []) steps obs in
+      let spec := match obs with
+                  | [] => true
+                  | b0 :: _ => xsess_spec [] (map (fun c => mkcnt (cn_url c) 0 0) b0) (map xhstep_xsstep steps) obs
+                  end
+                  && xroute_spec ng down [] steps in
+      verdict same spec None (reached_after_loss [] steps)
   end.
